@@ -594,7 +594,13 @@ def run(ctx) -> None:
         elif isinstance(x, ast.Call) and last_attr(x) == "setdefault" and x.args and isinstance(x.args[0], ast.Attribute) \
                 and x.args[0].attr == "relativeReference":
             fills.append(x)
-    ctx.require(bool(fills), "anchor missing: the table that decides which reference owns a relative spelling in _compute_memoization_info")
+    if not fills:
+        # no owner is chosen at all: every reference replaces "its" relative spelling, the first one in the loop wins
+        ctx.require(bool(rel_tests), "anchor missing: neither an owner table nor a test for the relative spelling in _compute_memoization_info")
+        ctx.ob("C16.R17-relative-spelling-belongs-to-the-own-stage-producer", rel_tests[0][0].ast, False,
+               "_compute_memoization_info replaces the relative spelling of a reference without choosing which reference owns it: with same-named "
+               "producers in two stages 'P/out.txt:ref' is replaced by the hash of whichever reference the loop visits first, not by the "
+               "own-stage producer's", construct="owner of a relative spelling <- own stage first")
     for fl_ in fills:
         region = [fl_] + [a for a in source.ancestors(fl_) if isinstance(a, (ast.For, ast.While)) and any(a is y for y in ast.walk(fn))]
         # what the loops iterate (sort keys included) belongs to the choice; the rest of an outer loop's body does not
